@@ -14,6 +14,9 @@
     * `goto` arriving at its label with a different lock set than the label is reached with otherwise,
     * a block that falls through to its end with a changed lock set (if without else, loop body),
     * Lock of a mutex the function already holds (self-deadlock), Unlock of one it does not hold,
+    * an explicit `panic(...)` with such a lock held and no deferred Unlock for it (the unwinding runs the
+      deferred Unlocks only; Run's recover swallows the panic and the mutex stays locked) - unless that very
+      panic is listed in `panicUnreachable` with the theorem that proves it unreachable,
     * a call, made while a mutex is held (a deferred Unlock has not run yet), of a function of the traced
       files that locks that same mutex itself - through its receiver (`c.DoS()` with c.Mutex held) or a
       package-level mutex; one level deep (the callee's own trace, not what the callee calls in turn),
@@ -137,7 +140,9 @@ def step (s0 : St) (t : Tok) : St :=
       if s.lastLeaves || s.same s.held f.entry then { s' with held := f.entry }
       else { (s'.complain "case falls out with a changed lock set") with held := f.entry }
     | [] => s'.complain "case outside switch"
-  | 11 => { s' with lastLeaves := true }
+  | 11 => -- explicit panic(...): the unwinding runs the deferred Unlocks; Run's recover swallows the panic, so
+          -- a lock taken here without defer stays locked for ever
+    { (exitCheck s' "panic") with lastLeaves := true }
   | 12 => -- call of a function (of the traced files) that locks t.2 itself: sync.Mutex is not re-entrant
     if s.held.contains t.2 then s'.complain ("call of a function that locks " ++ t.2 ++ " while it is held") else s'
   | _ => s'.complain "unknown token"
@@ -155,9 +160,30 @@ def scanFrom (init : List String) (ts : List Tok) : List String :=
 def scan (fn : String) (ts : List Tok) : List String :=
   scanFrom ((callerHolds.lookup fn).getD []) ts
 
-/-- all complaints over a list of traces, prefixed with the function -/
-def complaints (trs : List (String × List Tok)) : List String :=
+/-- explicit `panic(...)` statements standing between a Lock and its non-deferred Unlock that are PROVED
+    unreachable: (function, lock, theorem of Props.C18 that proves it). Each entry removes ONE complaint
+    "panic with <lock> held" of exactly that function - a second panic under the same lock, another lock
+    or another function is still reported.
+    * ProcessCmpctBlock (cblk.go `panic("Tx idx … is missing")` under txpool.TxMutex): every short id the
+      second pass reads back was put into the map by the first loop.
+    * FetchMessage (core.go `panic("ERROR: hdr_len > 24 …")` under c.Mutex): hdr_len grows by the count Read
+      returned for the slice hdr[hdr_len:24], so it cannot pass 24 (assumption: the net.Conn.Read contract). -/
+def panicUnreachable : List (String × String × String) :=
+  [("OneConnection.ProcessCmpctBlock", "txpool.TxMutex", "GocoinV.Props.C18.cmpctblock_panic_unreachable"),
+   ("OneConnection.FetchMessage", "c.Mutex", "GocoinV.Props.C18.fetch_hdrlen_panic_unreachable")]
+
+/-- remove, for function `fn`, one complaint per matching entry of `panicUnreachable` -/
+def dropProved (fn : String) (ms : List String) : List String :=
+  panicUnreachable.foldl
+    (fun ms w => if w.1 == fn then ms.erase ("panic with " ++ w.2.1 ++ " held") else ms) ms
+
+/-- every complaint of the scan, nothing filtered, prefixed with the function -/
+def complaintsRaw (trs : List (String × List Tok)) : List String :=
   trs.flatMap (fun p => (scan p.1 p.2).map (fun m => p.1 ++ ": " ++ m))
+
+/-- all complaints over a list of traces except the proved-unreachable panics, prefixed with the function -/
+def complaints (trs : List (String × List Tok)) : List String :=
+  trs.flatMap (fun p => (dropProved p.1 (scan p.1 p.2)).map (fun m => p.1 ++ ": " ++ m))
 
 /-! ### the scan on the two shapes of ParseAddr's database-full path and of processGetData's InvStore -/
 
@@ -180,5 +206,10 @@ def shapeCallUnlocked : List Tok :=
     Unlock: every exit is fine, but DoS waits for the mutex its caller holds -/
 def shapeCallDeferred : List Tok :=
   [(0, "c.Mutex"), (2, "c.Mutex"), (3, "if"), (12, "c.Mutex"), (5, ""), (4, "if")]
+
+/-- `Lock; if missing { panic(…) }; Unlock` — ProcessCmpctBlock's second pass: the lock stays held -/
+def shapePanicHeld : List Tok := [(0, "TxMutex"), (3, "if"), (11, ""), (4, "if"), (1, "TxMutex")]
+/-- `Lock; defer Unlock; if missing { panic(…) }` — the unwinding releases the lock -/
+def shapePanicDeferred : List Tok := [(0, "TxMutex"), (2, "TxMutex"), (3, "if"), (11, ""), (4, "if")]
 
 end GocoinV.NetParse.Locks
